@@ -84,9 +84,20 @@ impl ExtensibleField<2> for T {
     fn mul_base(a: [T; 2], b: T) -> [T; 2] { [a[0] * b, a[1] * b] }
     fn frobenius(x: [T; 2]) -> [T; 2] { [x[0], -x[1]] }
 }
+// cubic extension F_257[x]/(x^3 - x - 1) (no root in F_257, hence irreducible); frobenius is the F_257-linear map phi -> psi = phi^257
+// with psi = 221 + 47 phi + 54 phi^2 and psi^2 = 204 + 239 phi + 209 phi^2 (computed offline; psi^3 = psi + 1 checked there)
 impl ExtensibleField<3> for T {
-    fn mul(_a: [T; 3], _b: [T; 3]) -> [T; 3] { unimplemented!() }
-    fn mul_base(_a: [T; 3], _b: T) -> [T; 3] { unimplemented!() }
-    fn frobenius(_x: [T; 3]) -> [T; 3] { unimplemented!() }
-    fn is_supported() -> bool { false }
+    fn mul(a: [T; 3], b: [T; 3]) -> [T; 3] {
+        let c0 = a[0] * b[0];
+        let c1 = a[0] * b[1] + a[1] * b[0];
+        let c2 = a[0] * b[2] + a[1] * b[1] + a[2] * b[0];
+        let c3 = a[1] * b[2] + a[2] * b[1];
+        let c4 = a[2] * b[2];
+        // phi^3 = phi + 1, phi^4 = phi^2 + phi
+        [c0 + c3, c1 + c3 + c4, c2 + c4]
+    }
+    fn mul_base(a: [T; 3], b: T) -> [T; 3] { [a[0] * b, a[1] * b, a[2] * b] }
+    fn frobenius(x: [T; 3]) -> [T; 3] {
+        [x[0] + T(221) * x[1] + T(204) * x[2], T(47) * x[1] + T(239) * x[2], T(54) * x[1] + T(209) * x[2]]
+    }
 }
